@@ -4,26 +4,38 @@ Seam: full stacks.  A real `gatt_server.Server` on one Device, real
 `gatt_client.Client`s (the per-connection client, and enhanced-bearer clients made by
 `Client.connect_eatt`) on one or two other Devices, over the VLoop LocalLink.  For the
 termination clause the peer's ATT fixed channel is answered by a scripted adversary.
+Reference: vp/harness/c12_model.py (plain Python written from the Core spec / the
+statement; imports nothing from bumble).
 
 Sub-checks
   discovery    database shapes from a bounded grammar (1-3 services, primary/secondary,
-               include edges, 0-3 characteristics, 0-2 descriptors, UUID widths 16/32/128
-               mixed inside one range, property sets) x ATT_MTU preference pairs x bearer
-               (ATT fixed channel, EATT).  Every discovery procedure of the client is run and
-               its result compared with the reference model (vp/harness/c12_model.py); then
-               every attribute is read, and written with and without response.
+               include edges incl. an included service that is never added by itself,
+               0-3 characteristics, 0-2 descriptors, UUID widths 16/32/128 mixed inside one
+               range, property sets, static/dynamic values; at most 2 axes off the minimal
+               database) x ATT_MTU preference pairs x bearer (ATT fixed channel, EATT), on a
+               server without and with bumble's default GAP/GATT services.  Every discovery
+               procedure of the client is run (all primary services, by service UUID, included
+               services, characteristics, characteristics by UUID, descriptors, all attributes;
+               secondary services through their include) and compared with the model; then every
+               attribute is read, and every value written with and without response.
   long_read    one long-value database x every client/server MTU preference pair of the tier
-               x value lengths {0,1,MTU-4..MTU,k(MTU-1)-1..+1 (k=1,2,3),511,512} x static and
-               dynamic values x bearer: read_value returns the exact current value; writes of
-               length {0,1,MTU-3} take effect.
+               x value lengths {0,1,MTU-4..MTU,k(MTU-1)-1..+1 (k=1,2,3),511,512} x static /
+               dynamic / descriptor values x bearer: read_value (client and proxy) returns the
+               exact current value; writes of length {0,1,MTU-3} take effect.
   notify       3 bearers (ATT on two connections from two client devices + one EATT bearer) x
-               2 characteristics x subscription state per (bearer, characteristic) x the eight
-               notify/indicate API entry points, forced and unforced x value lengths around
-               MTU-3: PDU kind, routing, truncation, client callbacks, and that an indication
-               stays pending until its confirmation.
-  termination  every discovery procedure against all adversarial response scripts of length
-               <= 3 (last item repeated forever) over 14 response kinds: the call returns or
+               2 characteristics x subscription state per (bearer, characteristic) x the
+               notify/indicate API entry points x target x force x value lengths around
+               MTU-3: PDU kind on the wire, routing to exactly the subscribed bearers,
+               truncation, client subscriber functions and 'update' listeners, one confirmation
+               per indication, and that the call stays pending until the confirmation arrives
+               (confirmations are held back by a gate on the client side).
+  termination  every discovery procedure against adversarial response scripts of length <= 3
+               (last item repeated forever) over 14 response kinds: the call returns or
                raises within 70 000 requests.
+
+Signatures: {check, problem, + the input class that matters for that check (UUID width /
+bearer / value length class / API entry point, target kind, force / procedure and
+repeated response kind)}.
 """
 from __future__ import annotations
 
@@ -486,7 +498,7 @@ def discovery_case(spec, links, seed=0, do_writes=True, light_after_first=False,
         do_writes = False
     with GattWorld(2, 1, seed=seed, eatt=any(l[0] == 'eatt' for l in links), defaults=defaults) as g:
         model = g.set_database(spec)
-        probs = [] if defaults else g.layout_problems()
+        probs = [] if (defaults or model.autoreg()) else g.layout_problems()
         if probs:
             f.add('db_layout', {'problem': 'sequence', 'autoreg_include': model.autoreg()}, 'server attribute list differs from the model: ' + probs[0])
             return f, info
